@@ -25,7 +25,7 @@ func init() {
 		id: "C16", worker: "c16", goCmd: "go", race: true, chunk: 8,
 		instrument: []string{"-maps", "-clock", "-tick", "-locks"},
 		tiers: map[string]tierCfg{
-			"quick":    {cases: 640, timeout: 10 * time.Minute},
+			"quick":    {cases: 480, timeout: 10 * time.Minute},
 			"thorough": {cases: 32_000, timeout: 30 * time.Minute},
 		},
 		level: "exploration",
@@ -106,7 +106,7 @@ func init() {
 		id: "C01", worker: "c01", goCmd: "go",
 		instrument: []string{"-maps", "-clock", "-tick"},
 		tiers: map[string]tierCfg{
-			"quick":    {cases: 16_000, timeout: 20 * time.Minute},
+			"quick":    {cases: 10_000, timeout: 20 * time.Minute},
 			"thorough": {cases: 1_000_000, timeout: 120 * time.Minute},
 		},
 		level: "exploration",
